@@ -274,6 +274,10 @@ func AllocBound(n int) {}
 // Natively it is a no-op: the harness compares deep copies instead.
 func WatchWrites(root interface{}, tag string) {}
 
+// WatchObject marks the own state of a repo object (scalar and []byte fields, nested structs,
+// pointers to repo structs - not injected interfaces) read-only. Native no-op.
+func WatchObject(obj interface{}, tag string) {}
+
 // WatchOn switches the write monitor on or off.
 func WatchOn(on bool) {}
 
